@@ -429,15 +429,38 @@ func genDollarProfile(t *rapid.T) string {
 	return sb.String()
 }
 
+// numeric extremes: numbers that are well-formed JSON and far outside what a float64 or an int64 holds, on a
+// property a constraint looks at (and quotes in its trace when violated)
+var extremeNumbers = []string{"1e999", "-1e999", "1E400", "2.5e+310", "1e308", "1e-400", "9007199254740993", "123456789012345678901234567890", "-0", "0.1e1", "1e+2", "0E0", "4.9e-324"}
+
+func genNumericExtremeCase(t *rapid.T) (profile, data string) {
+	c := pick(t, []string{"maxExclusive: 50", "minInclusive: 1000", "maxInclusive: 0.5", "in:\n        - 1\n        - 2", "datatype: xsd.string", "maxCount: 0", "pattern: \"^a\""}, "extremeConstraint")
+	profile = "profile: numeric extremes\nprefixes:\n  ex: http://ex.org/v#\nviolation:\n- v\nvalidations:\n  v:\n    targetClass: ex.Test\n    message: \"value {{ex.p0}}\"\n    propertyConstraints:\n      ex.p0:\n        " + c + "\n"
+	n := rapid.IntRange(1, 3).Draw(t, "extremeCount")
+	vals := make([]string, n)
+	for i := range vals {
+		vals[i] = pick(t, extremeNumbers, "extremeNumber")
+		if rapid.Bool().Draw(t, "wrapped") {
+			vals[i] = "{\"@value\": " + vals[i] + "}"
+		}
+	}
+	data = "[{\"@id\": \"http://ex.org/n/n0\", \"@type\": [\"http://ex.org/v#Test\"], \"http://ex.org/v#p0\": [" + strings.Join(vals, ", ") + "]}]"
+	return
+}
+
 func genC17(t *rapid.T) c17Case {
 	loadFixtures()
 	c := c17Case{Entry: pick(t, c17Entries, "entry"), Debug: rapid.IntRange(0, 3).Draw(t, "debug") == 0}
 	// profile (half of the cases keep the profile valid so that mutated data reaches indexing and evaluation)
-	pk := rapid.IntRange(0, 13).Draw(t, "pkind")
+	pk := rapid.IntRange(0, 14).Draw(t, "pkind")
 	if rapid.Bool().Draw(t, "keepProfile") {
 		pk = 3
 	}
 	switch pk {
+	case 14:
+		c.Profile, c.Data = genNumericExtremeCase(t)
+		c.Ops = append(c.Ops, "p:numeric-extremes", "d:numeric-extremes")
+		return c
 	case 13:
 		c.Profile = genDollarProfile(t)
 		c.Ops = append(c.Ops, "p:dollar-signs-in-rego")
@@ -558,8 +581,11 @@ func decideC17Calls(c c17Case) ev.Verdict {
 	}
 	if res.Err == nil {
 		lab = "outcome:report"
+		// JSON as a syntax: numbers of any magnitude are fine (decoded as json.Number, not as float64)
 		var v any
-		if err := json.Unmarshal([]byte(res.Report), &v); err != nil {
+		dec := json.NewDecoder(strings.NewReader(res.Report))
+		dec.UseNumber()
+		if err := dec.Decode(&v); err != nil {
 			return ev.Violation("c17-report-not-json", "%s returned a report that is not JSON: %v\n%s", c.Entry, err, trunc(res.Report, 500))
 		}
 	}
